@@ -75,6 +75,41 @@ class _Abort(BaseException):
     pass
 
 
+class LockRegistry:
+    """All scheduler-aware locks of the code under test (module-level ones and ones it creates later)."""
+
+    def __init__(self):
+        self.locks = []
+        self.current = None
+
+    def make(self):
+        l = SchedLock()
+        l.sched = self.current
+        self.locks.append(l)
+        return l
+
+    def bind(self, execution):
+        self.current = execution
+        for l in self.locks:
+            l.sched = execution
+            l.owner = None
+
+
+def reload_with_sched_locks(module, registry):
+    """Re-import `module` with threading.Lock replaced by scheduler-aware locks, so that every lock
+    the module creates - now or later through a captured factory - is visible to the scheduler.
+    A real lock would deadlock a cooperative scheduler (a parked thread may hold it)."""
+    import importlib
+
+    real = threading.Lock
+    threading.Lock = registry.make
+    try:
+        importlib.reload(module)
+    finally:
+        threading.Lock = real
+    return module
+
+
 class Execution:
     """One run of the scenario under a given choice prefix.
 
@@ -238,13 +273,12 @@ class Explorer:
             bodies = self.scenario.setup()
             ex = Execution(bodies, prefix, self.visible, self.lock)
             if self.lock is not None:
-                self.lock.sched = ex
-                self.lock.owner = None
+                self.lock.bind(ex)
             try:
                 results = ex.run()
             finally:
                 if self.lock is not None:
-                    self.lock.sched = None
+                    self.lock.bind(None)
         finally:
             gc.enable()
         self.executions += 1
